@@ -149,6 +149,21 @@ func (w *tw) mrow(r mrow) {
 	}
 }
 
+// protoCanon: like proto but with every Duration present (as after a merge), so that
+// logically equal rows serialise to equal bytes
+func (r mrow) protoCanon() *v1proto.Row {
+	p := r.proto()
+	if p.DeleteUpdateOffset == nil {
+		p.DeleteUpdateOffset = durationpb.New(0)
+	}
+	for _, cv := range p.ColumnValues {
+		if cv.UpdateOffset == nil {
+			cv.UpdateOffset = durationpb.New(0)
+		}
+	}
+	return p
+}
+
 func (r mrow) proto() *v1proto.Row {
 	p := &v1proto.Row{Deleted: r.del, ColumnValues: map[string]*v1proto.ColumnValue{}}
 	if r.doff != 0 {
